@@ -11,6 +11,9 @@
 // has returned (synchronous for main/self; for async a task posted afterwards has run on the interrupted thread) and
 // then until every loop has completed three further passes (marker tasks runInLoop -> runNext, one round after
 // the other), so every number written to a signal pipe has been read and dispatched.  No sleeps, no expectations.
+// Further steps: batch L [ops] = several subscription calls in ONE task of loop L (no loop pass in between); hold L /
+// release L = the thread of loop L is parked inside a task while signals are raised, so that it reads them as a batch;
+// "prog" of an event = subscription calls (enable/disable/destroy of events of the same loop) made from inside its callback.
 // The program decides nothing: it records what it did and saw; TLC validates against spec/Signals/Trace_Signals.tla.
 #include <vh.h>
 #include <condition_variable>
@@ -94,11 +97,18 @@ static void run_on(int L, const std::function<void()> &fn, const char *what) {
     g_loops[L]->loop->runInLoop([&] { fn(); l.done(); }, what);
     l.wait(what);
 }
-// every loop completes one more full pass: a cross-thread task that posts a run-next task
+// hold L: the thread of loop L is parked inside a task until release L; signals raised meanwhile queue up in its pipe
+struct Hold { std::mutex m; std::condition_variable cv; bool go = false; };
+static std::vector<std::shared_ptr<Hold>> g_hold;     // index 1..n, null = not held
+static bool is_held(int L) { return L >= 1 && L < (int)g_hold.size() && g_hold[L]; }
+// every loop that is not held completes one more full pass: a cross-thread task that posts a run-next task
 static void pass_round() {
-    int n = (int)g_loops.size() - 1;
-    Latch l(n);
+    int n = (int)g_loops.size() - 1, m = 0;
+    for (int L = 1; L <= n; ++L) if (!is_held(L)) ++m;
+    if (!m) return;
+    Latch l(m);
     for (int L = 1; L <= n; ++L) {
+        if (is_held(L)) continue;
         Loop *lp = g_loops[L]->loop;
         lp->runInLoop([lp, &l] { lp->runNext([&l] { l.done(); }, "c04.marker2"); }, "c04.marker1");
     }
@@ -118,7 +128,7 @@ static void on_point(const char *name, long, long) {
 }
 
 // ---------------------------------------------------------------- events ------------------------
-struct EvCfg { int L; std::set<int> signos; std::vector<int> sigs; bool os; };
+struct EvCfg { int L; std::set<int> signos; std::vector<int> sigs; bool os; std::vector<std::pair<std::string, int>> prog; };
 static std::vector<EvCfg> g_cfg;                // 1..m
 static std::vector<SignalEvent *> g_ev;         // 1..m, nullptr = absent
 struct Cb { int ev, sig, thr; };
@@ -135,13 +145,22 @@ static std::string sent_json(const int *base) {
     for (int i = 1; i <= NSIG_T; ++i) { if (i > 1) s += ','; s += std::to_string(g_sent[i].load() - base[i]); }
     return s + "],\"sentbad\":" + std::to_string(g_sent[0].load() - base[0]);
 }
+// one subscription call made directly on the thread of loop L (from a batch task or from inside a callback);
+// calls on events that do not exist or belong to another loop are skipped
+static void inline_op(const std::string &o, int a, int L, int self) {
+    if (a < 1 || a >= (int)g_ev.size() || g_cfg[a].L != L || !g_ev[a]) return;
+    if (o == "enable") g_ev[a]->enable();
+    else if (o == "disable") g_ev[a]->disable();
+    else if (o == "destroy" && a != self) { delete g_ev[a]; g_ev[a] = nullptr; }
+}
 static void create_event(int e) {
     const EvCfg &c = g_cfg[e];
     SignalEvent *ev = g_loops[c.L]->loop->newSignalEvent("c04.ev" + std::to_string(e));
     ev->initialize(c.signos, c.os ? Event::Mode::kOneshot : Event::Mode::kPersist);
     ev->setCallback([e](int signo) {
-        std::lock_guard<std::mutex> g(g_cb_m);
-        g_cbs.push_back(Cb{e, index_of(signo), tl_loop});
+        { std::lock_guard<std::mutex> g(g_cb_m); g_cbs.push_back(Cb{e, index_of(signo), tl_loop}); }
+        const EvCfg &me = g_cfg[e];                     // the callback's program: subscription changes from inside the callback
+        for (size_t i = 0; i < me.prog.size(); ++i) inline_op(me.prog[i].first, me.prog[i].second, me.L, e);
     });
     g_ev[e] = ev;
 }
@@ -154,6 +173,22 @@ static void do_sub_op(const std::string &o, int e) {
     else if (o == "disable") run_on(g_cfg[e].L, [&] { ret = g_ev[e]->disable(); }, "disable");
     else run_on(g_cfg[e].L, [&] { delete g_ev[e]; g_ev[e] = nullptr; }, "destroy");
     T.printf("{\"e\":\"%s\",\"ev\":%d,\"ret\":%s,\"en\":%s,\"d\":%s}", o.c_str(), e, ret ? "true" : "false", en_json().c_str(), disp_json().c_str());
+}
+
+// every loop that is not held completes three further passes; then the callbacks seen since the last clear are logged
+// per thread, in the order they happened, followed by the state
+static void settle_and_log(const int *base) {
+    auto &T = vh::T();
+    for (int r = 0; r < 3; ++r) pass_round();
+    std::vector<Cb> cbs;
+    { std::lock_guard<std::mutex> g(g_cb_m); cbs = g_cbs; }
+    int n = (int)g_loops.size() - 1;
+    for (int L = 0; L <= n; ++L) {                      // L = 0: callbacks seen on a thread that is no loop's thread
+        std::string a;
+        for (auto &c : cbs) if (c.thr == L) { if (!a.empty()) a += ','; a += "[" + std::to_string(c.ev) + "," + std::to_string(c.sig) + "]"; }
+        if (!a.empty()) T.printf("{\"e\":\"read\",\"L\":%d,\"cbs\":[%s]}", L, a.c_str());
+    }
+    T.printf("{\"e\":\"quiet\",\"sent\":%s,\"en\":%s,\"d\":%s}", sent_json(base).c_str(), en_json().c_str(), disp_json().c_str());
 }
 
 static void do_raise(int s, const std::string &via, int t) {
@@ -172,16 +207,34 @@ static void do_raise(int s, const std::string &via, int t) {
         g_step = false;
     }
     T.printf("{\"e\":\"raise\",\"s\":%d,\"via\":\"%s\",\"t\":%d,\"steps\":%d,\"sent\":%s}", s, via.c_str(), t, g_step_points.load(), sent_json(base).c_str());
-    for (int r = 0; r < 3; ++r) pass_round();
-    std::vector<Cb> cbs;
-    { std::lock_guard<std::mutex> g(g_cb_m); cbs = g_cbs; }
-    int n = (int)g_loops.size() - 1;
-    for (int L = 0; L <= n; ++L) {                      // L = 0: callbacks seen on a thread that is no loop's thread
-        std::string a;
-        for (auto &c : cbs) if (c.thr == L) { if (!a.empty()) a += ','; a += "[" + std::to_string(c.ev) + "," + std::to_string(c.sig) + "]"; }
-        if (!a.empty()) T.printf("{\"e\":\"read\",\"L\":%d,\"cbs\":[%s]}", L, a.c_str());
-    }
-    T.printf("{\"e\":\"quiet\",\"sent\":%s,\"en\":%s,\"d\":%s}", sent_json(base).c_str(), en_json().c_str(), disp_json().c_str());
+    settle_and_log(base);
+}
+
+static void do_batch(int L, const json &ops) {
+    run_on(L, [&] { for (auto &o : ops) inline_op(o["o"].get<std::string>(), o["a"].get<int>(), L, 0); }, "batch");
+    vh::T().printf("{\"e\":\"batch\",\"L\":%d,\"ops\":%s,\"en\":%s,\"d\":%s}", L, ops.dump().c_str(), en_json().c_str(), disp_json().c_str());
+}
+static void do_hold(int L) {
+    std::shared_ptr<Hold> hd(new Hold);
+    Latch started(1);
+    g_loops[L]->loop->runInLoop([hd, &started] {
+        started.done();
+        std::unique_lock<std::mutex> g(hd->m);
+        if (!hd->cv.wait_for(g, std::chrono::seconds(300), [&] { return hd->go; })) watchdog_fail("hold");
+    }, "c04.hold");
+    started.wait("hold");
+    g_hold[L] = hd;
+    vh::T().printf("{\"e\":\"hold\",\"L\":%d}", L);
+}
+static void do_release(int L) {
+    int base[NSIG_T + 1];
+    for (int i = 0; i <= NSIG_T; ++i) base[i] = g_sent[i].load();
+    { std::lock_guard<std::mutex> g(g_cb_m); g_cbs.clear(); }
+    std::shared_ptr<Hold> hd = g_hold[L];
+    g_hold[L].reset();
+    { std::lock_guard<std::mutex> g(hd->m); hd->go = true; hd->cv.notify_all(); }
+    vh::T().printf("{\"e\":\"release\",\"L\":%d}", L);
+    settle_and_log(base);
 }
 
 static void execute(const json &sc) {
@@ -204,10 +257,12 @@ static void execute(const json &sc) {
         lt->th = std::thread([lp, L] { tl_loop = L; lp->runLoop(Loop::Mode::kForever); });
         g_loops.push_back(std::move(lt));
     }
+    g_hold.assign(n + 1, nullptr);
     g_cfg.clear(); g_cfg.emplace_back(); g_ev.assign(1, nullptr);
     for (auto &e : sc["ev"]) {
         EvCfg c; c.L = e["L"]; c.os = e["os"];
         for (int s : e["sigs"]) { c.sigs.push_back(s); c.signos.insert(signo_of(s)); }
+        if (e.contains("prog")) for (auto &o : e["prog"]) c.prog.emplace_back(o["o"].get<std::string>(), o["a"].get<int>());
         g_cfg.push_back(c); g_ev.push_back(nullptr);
     }
     T.printf("{\"e\":\"Reset\",\"n\":%d,\"eng\":%s,\"kind\":%s,\"ev\":%s}", n, sc["eng"].dump().c_str(), kinds.c_str(), sc["ev"].dump().c_str());
@@ -220,15 +275,23 @@ static void execute(const json &sc) {
             if (a < 1 || a > NSIG_T || is_dfl_now(a)) continue;            // the default action would end the process: not raised
             std::string via = op.value("via", "main"); int t = op.value("t", 1);
             if (via != "self" && via != "async") t = 0;
-            else if (t < 1 || t > n) { via = "main"; t = 0; }
+            else if (t < 1 || t > n || is_held(t)) { via = "main"; t = 0; }
             do_raise(a, via, t);
+        } else if (o == "hold") {
+            if (a >= 1 && a <= n && !is_held(a)) do_hold(a);
+        } else if (o == "release") {
+            if (is_held(a)) do_release(a);
+        } else if (o == "batch") {
+            if (a >= 1 && a <= n && !is_held(a)) do_batch(a, op["ops"]);
         } else {
             if (a < 1 || a >= (int)g_ev.size()) continue;
             bool present = g_ev[a] != nullptr;
             if ((o == "create") == present) continue;                      // not applicable: skipped, nothing logged
+            if (is_held(g_cfg[a].L)) continue;                             // that loop's thread is busy: nothing can run on it
             do_sub_op(o, a);
         }
     }
+    for (int L = 1; L <= n; ++L) if (is_held(L)) do_release(L);
     for (size_t e = 1; e < g_ev.size(); ++e) if (g_ev[e]) do_sub_op("destroy", (int)e);    // every history ends with all events destroyed
     for (int L = 1; L <= n; ++L) {
         Loop *lp = g_loops[L]->loop;
